@@ -182,6 +182,24 @@ func (pv *Prov) of(v ssa.Value, depth int, seen map[ssa.Value]bool) *Expr {
 							return rec(st.Val)
 						}
 					case *ssa.FieldAddr:
+						// a field of a freshly allocated struct that is stored exactly once
+						if al, ok := ad.X.(*ssa.Alloc); ok {
+							var only *ssa.Store
+							n := 0
+							for _, ref := range *al.Referrers() {
+								if fa2, ok := ref.(*ssa.FieldAddr); ok && fa2.Field == ad.Field {
+									for _, rr := range *fa2.Referrers() {
+										if st, ok := rr.(*ssa.Store); ok && st.Addr == ssa.Value(fa2) {
+											only = st
+											n++
+										}
+									}
+								}
+							}
+							if n == 1 && only.Block().Dominates(v.Block()) {
+								return rec(only.Val)
+							}
+						}
 						if base := valueAt(ad.X); base != nil {
 							return &Expr{Op: "field", Val: v, Name: fieldName(ad.X.Type(), ad.Field), Idx: ad.Field, Args: []*Expr{base}, Type: ad.Type().Underlying().(*types.Pointer).Elem()}
 						}
